@@ -102,30 +102,18 @@ fn cmd_run(args: &[String]) -> i32 {
             let _ = progress.write_at(format!("{idx:020}\n").as_bytes(), 0);
         }
         let rs = run_seed(seed, &label, idx);
-        let vs = match engine.as_str() {
-            "wal" => {
-                let cfg = wal::Config { focus: focus.clone(), max_buf: 64 << 10, enumerate_cuts: true };
-                wal::run(&cat, &cfg, &mut stats, rs)
-            }
-            "skew" => {
-                let cfg = skew::Config {
-                    focus: focus.clone(),
-                    size_cap: arg(args, "--size-cap").map(|x| x.parse().unwrap()).unwrap_or(usize::MAX),
-                    event_cap: arg(args, "--event-cap").map(|x| x.parse().unwrap()).unwrap_or(usize::MAX),
-                };
-                skew::run(&cat, &cfg, &mut stats, rs)
-            }
-            "seams" => seams::run(&cat, &seams::Config { focus: focus.clone() }, &mut stats, rs),
-            "zip" => {
-                let max_len = arg(args, "--max-len").map(|x| x.parse().unwrap()).unwrap_or(16 << 10);
-                let big_len = arg(args, "--big-len").map(|x| x.parse().unwrap()).unwrap_or(192 << 10);
-                zip::run(&zip::Config { focus: focus.clone(), max_len, big_len }, &mut stats, rs, &cat)
-            }
-            other => {
-                eprintln!("unknown engine {other}");
+        stats.run_acc = rs;
+        let vs = match run_one(&cat, &engine, &focus, rs, args, &mut stats) {
+            Some(v) => v,
+            None => {
+                eprintln!("unknown engine {engine}");
                 return 2;
             }
         };
+        for v in &vs {
+            stats.note(model::rng::fnv(v.fingerprint().as_bytes()));
+        }
+        stats.log_digest = stats.log_digest.wrapping_add(stats.run_acc);
         for v in vs {
             let n = seen.entry(v.fingerprint()).or_insert(0);
             *n += 1;
@@ -150,7 +138,19 @@ fn cmd_run(args: &[String]) -> i32 {
     o.insert("from".into(), json!(from));
     o.insert("to".into(), json!(to));
     o.insert("wall_s".into(), json!(wall));
-    o.insert("violations".into(), Value::Array(violations.iter().map(|v| v.to_json()).collect()));
+    o.insert(
+        "violations".into(),
+        Value::Array(
+            violations
+                .iter()
+                .map(|v| {
+                    let mut j = v.to_json();
+                    j["engine"] = json!(engine);
+                    j
+                })
+                .collect(),
+        ),
+    );
     o.insert("violation_counts".into(), json!(seen));
     std::fs::write(&out, serde_json::to_vec_pretty(&j).unwrap()).unwrap();
     let mut hb = Vec::with_capacity(stats.distinct.len() * 8);
@@ -160,6 +160,38 @@ fn cmd_run(args: &[String]) -> i32 {
     std::fs::write(format!("{out}.hashes"), hb).unwrap();
     let _ = std::fs::remove_file(format!("{out}.progress"));
     0
+}
+
+/// one simulated run: a pure function of (engine, focus, run seed, caps) and the code under test
+fn run_one(
+    cat: &catalog::Catalog,
+    engine: &str,
+    focus: &str,
+    rs: u64,
+    args: &[String],
+    stats: &mut stats::Stats,
+) -> Option<Vec<Violation>> {
+    Some(match engine {
+        "wal" => {
+            let cfg = wal::Config { focus: focus.to_string(), max_buf: 64 << 10, enumerate_cuts: true };
+            wal::run(cat, &cfg, stats, rs)
+        }
+        "skew" => {
+            let cfg = skew::Config {
+                focus: focus.to_string(),
+                size_cap: arg(args, "--size-cap").map(|x| x.parse().unwrap()).unwrap_or(usize::MAX),
+                event_cap: arg(args, "--event-cap").map(|x| x.parse().unwrap()).unwrap_or(usize::MAX),
+            };
+            skew::run(cat, &cfg, stats, rs)
+        }
+        "seams" => seams::run(cat, &seams::Config { focus: focus.to_string() }, stats, rs),
+        "zip" => {
+            let max_len = arg(args, "--max-len").map(|x| x.parse().unwrap()).unwrap_or(16 << 10);
+            let big_len = arg(args, "--big-len").map(|x| x.parse().unwrap()).unwrap_or(192 << 10);
+            zip::run(&zip::Config { focus: focus.to_string(), max_len, big_len }, stats, rs, cat)
+        }
+        _ => return None,
+    })
 }
 
 fn load_case(path: &str) -> (Value, Case) {
@@ -175,19 +207,45 @@ fn load_case(path: &str) -> (Value, Case) {
 /// exit 1 + VIOLATION line if the case in the file still violates its clause, 0 otherwise
 fn cmd_replay(args: &[String]) -> i32 {
     let path = args.get(2).expect("replay <file>");
-    let (_v, c) = load_case(path);
+    let (v, c) = load_case(path);
     let cat = catalog::builtin_catalog();
-    let ev = eval(&cat, &c);
-    match ev.finding {
-        Some(f) => {
-            println!("reproduced: property={} clause={} class={} type={} : {}", c.prop, c.clause, f.class, c.read_as, f.detail);
+    // 1. the recorded case itself
+    let finding = if c.clause == "encode" { None } else { eval(&cat, &c).finding };
+    let writer_involved = matches!(
+        c.clause.as_str(),
+        "self-delimiting" | "batch" | "script" | "ctor-index" | "sinks" | "sinks-history" | "zip-roundtrip" | "encode"
+    );
+    if finding.is_none() && c.clause != "encode" {
+        println!("not reproduced: property={} clause={} type={}", c.prop, c.clause, c.read_as);
+        return 0;
+    }
+    // 2. cases whose bytes came from the writer are only reproduced if the same simulated run still
+    //    produces the violation (otherwise a repaired writer would be blamed for stale bytes)
+    if writer_involved {
+        let (Some(engine), Some(rs)) = (v["engine"].as_str(), v["run_seed"].as_str().and_then(|s| s.parse::<u64>().ok())) else {
+            println!("reproduced (recorded case only; no run seed in the file)");
             println!("VIOLATION property={} replay={}", c.prop, path);
-            1
+            return 1;
+        };
+        let fp = v["fingerprint"].as_str().unwrap_or("");
+        let mut stats = stats::Stats::default();
+        let vs = run_one(&cat, engine, &c.prop, rs, args, &mut stats).unwrap_or_default();
+        match vs.iter().find(|x| x.fingerprint() == fp) {
+            Some(x) => {
+                println!("reproduced: run seed {rs} of engine {engine} again gives {} : {}", fp, x.finding.detail);
+                println!("VIOLATION property={} replay={}", c.prop, path);
+                1
+            }
+            None => {
+                println!("not reproduced: run seed {rs} of engine {engine} no longer produces {fp}");
+                0
+            }
         }
-        None => {
-            println!("not reproduced: property={} clause={} type={} outcome={}", c.prop, c.clause, c.read_as, ev.outcome);
-            0
-        }
+    } else {
+        let f = finding.unwrap();
+        println!("reproduced: property={} clause={} class={} type={} : {}", c.prop, c.clause, f.class, c.read_as, f.detail);
+        println!("VIOLATION property={} replay={}", c.prop, path);
+        1
     }
 }
 
